@@ -123,3 +123,62 @@ fn slow_point(id: u16) {
         }
     }
 }
+
+// ---------------------------------------------------------------- loopback TCP helpers
+//
+// Several monitors open thousands of short-lived loopback connections.  Closed
+// normally, each leaves a socket in TIME_WAIT for 60 s and the 28 k ephemeral ports
+// run out ("Address already in use" / "Cannot assign requested address"), which would
+// make a check inconclusive for reasons that have nothing to do with the daemon.
+// Every harness socket is therefore closed with RST (`no_time_wait`), and bind /
+// connect are retried for up to ~100 s so that TIME_WAIT left behind by *other*
+// processes is waited out instead of failing the run.
+
+/// Close with RST instead of FIN: no TIME_WAIT state is left behind.
+#[cfg(test)]
+pub(crate) fn no_time_wait(s: &tokio::net::TcpStream) {
+    let _ = s.set_linger(Some(std::time::Duration::ZERO));
+}
+
+#[cfg(test)]
+fn port_shortage(e: &std::io::Error) -> bool {
+    matches!(e.kind(), std::io::ErrorKind::AddrInUse | std::io::ErrorKind::AddrNotAvailable)
+}
+
+/// `TcpListener::bind(addr)` that waits out a temporary shortage of ephemeral ports.
+#[cfg(test)]
+pub(crate) async fn bind_retry(addr: std::net::SocketAddr) -> std::io::Result<tokio::net::TcpListener> {
+    let mut last = None;
+    for _ in 0..200 {
+        match tokio::net::TcpListener::bind(addr).await {
+            Ok(l) => return Ok(l),
+            Err(e) if port_shortage(&e) => {
+                last = Some(e);
+                tokio::time::sleep(std::time::Duration::from_millis(500)).await;
+            }
+            Err(e) => return Err(e),
+        }
+    }
+    Err(last.unwrap())
+}
+
+/// `TcpStream::connect(addr)` that waits out a temporary shortage of ephemeral ports;
+/// the returned stream is already set to close without TIME_WAIT.
+#[cfg(test)]
+pub(crate) async fn connect_retry(addr: std::net::SocketAddr) -> std::io::Result<tokio::net::TcpStream> {
+    let mut last = None;
+    for _ in 0..200 {
+        match tokio::net::TcpStream::connect(addr).await {
+            Ok(s) => {
+                no_time_wait(&s);
+                return Ok(s);
+            }
+            Err(e) if port_shortage(&e) => {
+                last = Some(e);
+                tokio::time::sleep(std::time::Duration::from_millis(500)).await;
+            }
+            Err(e) => return Err(e),
+        }
+    }
+    Err(last.unwrap())
+}
